@@ -1364,7 +1364,10 @@ def eval_lockhook(ctx: Ctx, case: dict):
 
 
 def gen_lockhook(rng, zk):
-    base = executable(gen_history(rng, zk))
+    h = gen_history(rng, zk)
+    h.pop("abs", None)
+    h.pop("ctor", None)  # the interleaving cases run on a plain relativized zone: the prefix must be executable there
+    base = executable(h)
     ops = base["ops"][: rng.choice([0, 2, 4, 8, 12])]
     # replay the prefix to know what is open
     run = Run(zk)
